@@ -274,15 +274,39 @@ Theorem c12_av_text_none_refuted :
 Proof. exact text_none_refuted. Qed.
 Print Assumptions c12_av_text_none_refuted.
 
-(* open finding C12-F10: under xs:anyType set_text(None) keeps None as the text member (to_text is the identity); the
-   instance serialises like the empty value, parsing delivers the text "" - the bytes are stable, the object is not ... *)
-Theorem c12_av_anytype_none_refuted :
-  exists xa, av_build (Recipe VNone [] [] [OSetType "xs:anyType"; OSetText VNone]) = TOk xa None
+(* finding C12-F10, FIXED in /repo (to_text of anyType maps None to ""): BEFORE the repair set_text(None) under
+   xs:anyType kept None as the text member (to_text was the identity); the instance serialised like the empty value,
+   parsing delivered the text "" - the bytes were stable, the object was not ... *)
+Theorem c12_av_anytype_none_v0_refuted :
+  exists xa, av_set_text_f10v0 VNone (av_set_type "xs:anyType" av_init_xattrs) = TOk xa None
              /\ av_known_class [] xa None = 10
              /\ o_text (harvest b_table 0%N (ser b_table (av_obj 0%N [] xa None))) = Some ""%string
              /\ ser b_table (harvest b_table 0%N (ser b_table (av_obj 0%N [] xa None))) = ser b_table (av_obj 0%N [] xa None).
-Proof. exact anytype_none_refuted. Qed.
-Print Assumptions c12_av_anytype_none_refuted.
+Proof. exact anytype_none_v0_refuted. Qed.
+Print Assumptions c12_av_anytype_none_v0_refuted.
+
+(* ... the same calls on the code as it is now store the text "": the typed empty value, which survives the round trip *)
+Theorem c12_av_anytype_none_now :
+  exists xa, av_build (Recipe VNone [] [] [OSetType "xs:anyType"; OSetText VNone]) = TOk xa (Some ""%string)
+             /\ av_known_class [] xa (Some ""%string) = 5
+             /\ harvest b_table 0%N (ser b_table (av_obj 0%N [] xa (Some ""%string))) = av_obj 0%N [] xa (Some ""%string).
+Proof. exact anytype_none_now. Qed.
+Print Assumptions c12_av_anytype_none_now.
+
+(* ... and since the repair NO recipe at all (any constructor arguments followed by any sequence of set_text / set_type /
+   clear_type / item assignments, of any length) builds an AttributeValue whose text member is None: class 10 is empty
+   on the building side as it is on the parsing side (next theorem) *)
+Theorem c12_av_set_text_some : forall v xa xa' tx, av_set_text v xa = TOk xa' tx -> tx <> None.
+Proof. exact set_text_some. Qed.
+Print Assumptions c12_av_set_text_some.
+
+Theorem c12_av_build_text_some : forall b xa tx, av_build b = TOk xa tx -> tx <> None.
+Proof. exact av_build_text_some. Qed.
+Print Assumptions c12_av_build_text_some.
+
+Theorem c12_av_build_not_class10 : forall b xa tx, av_build b = TOk xa tx -> av_text_none tx = false.
+Proof. exact av_build_not_class10. Qed.
+Print Assumptions c12_av_build_not_class10.
 
 (* ... and the class is exactly "text member None": NO document is parsed into an AttributeValue with text None *)
 Theorem c12_av_parse_text_some : forall T c ci t,
